@@ -14,7 +14,7 @@ REQUIRED_THEOREMS = [
     'C20_row_routing', 'C20_row_routing_pd', 'C20_row_routing_pk', 'C20_row_routing_sound',
     'C20_row_routing_pd_legacy_partial', 'C20_ids_nodup', 'C20_row_in_own_trace',
     'C20_pd_nonnumeric_id_counterexample', 'C20_pdpredictive_default_nan_counterexample',
-    'C20_palette_every_individual', 'C20_palette_zip_counterexample', 'C20_prediction_scatter', 'C20_simulation', 'C20_prediction_dose', 'C20_band_encloses_any',
+    'C20_falsy_observable_counterexample', 'C20_palette_every_individual', 'C20_palette_zip_counterexample', 'C20_prediction_scatter', 'C20_simulation', 'C20_prediction_dose', 'C20_band_encloses_any',
     'C20_band_encloses', 'C20_band_encloses_robust', 'C20_band_limits_are_samples', 'C20_band_nested',
     'C20_band_ordered', 'C20_polygon_decode', 'C20_prediction_bands', 'C20_no_mutation',
     'C20_residual_routing', 'C20_residual_completes', 'C20_residual_legacy_partial',
@@ -141,6 +141,25 @@ KEYSETS = [
 ]
 
 
+def label_pool(rng, n):
+    """n distinct observable labels of one kind: strings, integer codes or float codes. Falsy labels
+    ('' / 0 / 0.0) are ordinary labels and occur regularly, at any position."""
+    kind = ['str', 'str', 'str', 'int', 'float'][int(rng.integers(5))]
+    if kind == 'str':
+        pool = ['conc', 'tumour', 'c(t)', 'bm 2', 'A', '0']
+        falsy = ''
+    elif kind == 'int':
+        pool = [1, 2, 3, 7, 10]
+        falsy = 0
+    else:
+        pool = [1.0, 2.5, 3.0, 7.0]
+        falsy = 0.0
+    labels = [pool[int(j)] for j in rng.choice(len(pool), n, replace=False)]
+    if rng.random() < 0.45:
+        labels[int(rng.integers(n))] = falsy
+    return kind, labels
+
+
 def gen_frame(rng, force=None):
     """rows of a long-format PKPD frame in random order"""
     id_kind = force or ['int', 'int', 'float', 'str', 'str'][int(rng.integers(5))]
@@ -155,8 +174,11 @@ def gen_frame(rng, force=None):
     else:
         pool = ['a', 'b7', 'pat 3', '11', 'x-1', 'Z', '007'] + ['s%02d' % j for j in range(30)]
         ids = [str(v) for v in rng.choice(pool, n_ids, replace=False)]
+    # falsy IDs are ordinary IDs
+    if rng.random() < 0.3:
+        ids[int(rng.integers(len(ids)))] = {'int': 0, 'float': 0.0, 'str': ''}[id_kind]
     n_obs = int(rng.integers(1, 4))
-    obs = [str(v) for v in rng.choice(['conc', 'tumour', 'c(t)', 'bm 2', 'A'], n_obs, replace=False)]
+    obs_kind, obs = label_pool(rng, n_obs)
     p_miss = float(rng.choice([0.0, 0.0, 0.1, 0.25]))
     rows = []
     tgrid = np.arange(0, 33) * 0.25
@@ -188,7 +210,7 @@ def gen_frame(rng, force=None):
         index = [int(v) for v in rng.permutation(len(rows)) + 3]
     time_int = bool(rng.random() < 0.15)
     return {'id_kind': id_kind, 'rows': rows, 'keys': keys, 'index': index, 'time_int': time_int,
-            'extra_col': bool(rng.random() < 0.3)}
+            'extra_col': bool(rng.random() < 0.3), 'obs_kind': obs_kind}
 
 
 def build_frame(fr):
@@ -349,9 +371,10 @@ def routing_case(ctx, chi, fr, observable_mode, k, observable=_UNSET):
     elif observable_mode == 'default' or not present:
         observable = None
     elif observable_mode == 'absent':
-        observable = 'not-there'
+        observable = 'not-there' if fr.get('obs_kind', 'str') == 'str' else 99
     else:
-        observable = present[k % len(present)]
+        later_falsy = [o for o in present[1:] if not o]
+        observable = later_falsy[0] if later_falsy and k % 2 == 0 else present[k % len(present)]
     inp = {'kind': 'routing', 'k': k, 'frame': fr, 'observable': observable, 'mode': observable_mode}
     obs_code = None if observable is None else (obt.index(observable) if observable in obt else len(obt))
     spec = spec_routing(srows, observable)
@@ -512,13 +535,21 @@ def gen_samples(rng):
         ps = [p for p in ps if 0 < p < 1] or [0.5]
         ps = [float(p) for p in rng.permutation(ps)]
     keys = dict(KEYSETS[int(rng.choice([0, 0, 1]))])
+    _, lab = label_pool(rng, 2)
+    if rng.random() < 0.5:
+        lab = ['main', 'other']
     return {'rows': rows, 'doses': doses, 'ps': ps, 'mode': mode, 'keys': keys,
+            'labels': {'main': lab[0], 'other': lab[1]},
             'index': [int(v) for v in rng.permutation(len(rows) + len(doses)) + 1] if rng.random() < 0.3 else None}
+
+
+def band_label(g, tag='main'):
+    return g.get('labels', {'main': 'main', 'other': 'other'})[tag]
 
 
 def build_pred_frame(g):
     k = g['keys']
-    rows = g['rows']
+    rows = [[r[0], None if r[1] is None else band_label(g, r[1]), r[2]] for r in g['rows']]
     nd = len(g['doses'])
     df = pd.DataFrame({
         k['time_key']: pd.Series([r[0] for r in rows] + [d[0] for d in g['doses']], dtype='float64'),
@@ -587,7 +618,7 @@ def band_case(ctx, chi, g, k):
             kw.update(dose_key=keys['dose_key'], dose_duration_key=keys['dose_duration_key'])
         fig = getattr(plots, name)()
         status, _ = call_plot(ctx, name + '.add_prediction', df,
-                              lambda: fig.add_prediction(df, observable='main', bulk_probs=list(g['ps']), **kw),
+                              lambda: fig.add_prediction(df, observable=band_label(g), bulk_probs=list(g['ps']), **kw),
                               inp)
         ctx.agree('C20.add_prediction.status/' + name, status, mb[0], inp)
         if status != 'ok':
@@ -690,7 +721,7 @@ def band_case(ctx, chi, g, k):
             kw.update(dose_key=keys['dose_key'], dose_duration_key=keys['dose_duration_key'])
         fig = getattr(plots, name)()
         status, _ = call_plot(ctx, name + '.add_prediction(scatter)', df,
-                              lambda: fig.add_prediction(df, observable='main', bulk_probs=None, **kw), inp)
+                              lambda: fig.add_prediction(df, observable=band_label(g), bulk_probs=None, **kw), inp)
         want = sorted([bits(r[0]), bits(float('nan') if r[2] is None else r[2])] for r in g['rows']
                       if r[1] == 'main')
         if status != 'ok':
@@ -731,7 +762,9 @@ def gen_residual(rng):
         ids = [float(v) + float(rng.choice([0.0, 0.5])) for v in rng.choice(np.arange(1, 30), n_ids, replace=False)]
     else:
         ids = [int(v) for v in rng.choice(np.arange(1, 30), n_ids, replace=False)]
-    obs = ['conc', 'eff', 'bm 2'][:int(rng.integers(1, 4))]
+    obs_kind, obs = label_pool(rng, int(rng.integers(1, 4)))
+    if rng.random() < 0.3:
+        ids[int(rng.integers(len(ids)))] = {'int': 0, 'float': 0.0, 'str': ''}[id_kind]
     tgrid = [float(t) for t in np.arange(0, 8) * 0.5]
     int_values = bool(rng.random() < 0.2)
     meas = []
@@ -754,7 +787,7 @@ def gen_residual(rng):
     meas = [meas[int(j)] for j in order]
     pred = []
     drop = rng.random() < 0.12
-    for o in obs + (['unmeasured'] if rng.random() < 0.2 else []):
+    for o in obs + ([{'str': 'unmeasured', 'int': 55, 'float': 55.0}[obs_kind]] if rng.random() < 0.2 else []):
         for t in tgrid:
             if drop and t == meas[0][1] and o == meas[0][2]:
                 continue         # no prediction for a measured time -> ValueError expected
@@ -767,7 +800,8 @@ def gen_residual(rng):
     pred = [pred[int(j)] for j in rng.permutation(len(pred))]
     flags = [(True, False), (True, False), (False, False), (True, True), (False, True)][int(rng.integers(5))]
     om = rng.random()
-    observable = None if om < 0.4 else (obs[int(rng.integers(len(obs)))] if om < 0.9 else 'nope')
+    observable = None if om < 0.4 else (obs[int(rng.integers(len(obs)))] if om < 0.9 else
+                                       {'str': 'nope', 'int': 77, 'float': 77.0}[obs_kind])
     im = rng.random()
     individual = None if im < 0.55 else (ids[int(rng.integers(len(ids)))] if im < 0.92 else
                                          ('zz' if id_kind == 'str' else 999))
